@@ -7,13 +7,13 @@ CHECKS = {
     "C01": ("exploration", "property-based testing (Hypothesis): render/parse round-trip vs. the rendered datetime; thorough tier walks every calendar day 0001-9999",
             "Generated round-trip search: boundary-biased datetimes x 17 harness-written renderings x language/PREFER_* choices, and epoch timestamps x suffix x sign x zones against an independent pytz computation. Thorough enumerates all 3.65 M calendar days once. Search, not proof: absence of a counterexample in the explored set.",
             "Trusts pytz for zone arithmetic and Python's datetime; process TZ=UTC.", "DESIGN.md §4 C01"),
-    "C02": ("exploration", "structured fuzzing with Hypothesis (string mutation, token/digit soups, arbitrary Unicode x generated settings/language/format arguments), exception-bucketing by (type, innermost library frame), fresh-process re-confirmation",
-            "Totality and the error contract over generated (string, settings, languages/locales/region, date_formats) tuples with boundary-biased reference times (datetime.min/max, aware bases); invalid-settings sub-generator requires the documented exception whatever the string is; parse, get_date_data and get_date_tuple must agree in shape.",
+    "C02": ("exploration", "structured fuzzing with Hypothesis (string mutation, token/digit/residue soups, arbitrary Unicode x generated settings/language/format arguments), exception-bucketing by (type, innermost library frame), fresh-process re-confirmation; thorough adds a coverage-guided atheris/libFuzzer campaign over the same strategy and oracle",
+            "Totality and the error contract over generated (string, settings, languages/locales/region, date_formats) tuples with boundary-biased reference times (datetime.min/max, aware bases); invalid-settings sub-generator requires the documented exception from every entry point whatever the string is (blank, timestamp, format-matching strings included); parse, get_date_data and get_date_tuple must agree in shape.",
             "Only resolvable timezone names; 10-entry settings pool under autodetection (cost); TZ=UTC.", "DESIGN.md §4 C02"),
     "C03": ("exploration", "stateful property-based testing (Hypothesis-generated call histories, whole history shrinks) against a fresh-process oracle (forked pristine child per call, validated with real interpreters under several PYTHONHASHSEED values)",
-            "Histories of parse / DateDataParser creation and reuse / search_dates / calendar / failing calls over settings variants, executed in a forked child; every step's outcome must equal the same call alone in a fresh fork, passed-in containers must stay unmodified and default-settings probes must keep their fresh values. Directed 'setup, interference, probe' triples and free histories, from cold and warmed start states.",
+            "Histories of parse / DateDataParser creation and reuse / search_dates / calendar / failing calls over settings variants, executed in a forked child; every step's outcome must equal the same call alone in a fresh fork, passed-in containers must stay unmodified and default-settings probes must keep their fresh values. Directed 'setup, interference, probe' triples (equal / one-key-different / explicit-default / order-only-different settings, repeated searches) and free histories, from cold and warmed start states.",
             "A fork of a process that only imported dateparser stands for a fresh process (validated against new interpreters).", "DESIGN.md §4 C03"),
-    "C17": ("exploration", "property-based testing / structured fuzzing (Hypothesis) of search_dates with a well-formedness oracle; walk over all 205 languages",
+    "C17": ("exploration", "property-based testing / structured fuzzing (Hypothesis) of search_dates with a well-formedness oracle; walk over all 205 languages; thorough adds a coverage-guided atheris/libFuzzer campaign",
             "Texts built from corpus dates of the requested language, filler and mutated punctuation, for every language explicitly, multi-language and autodetect: no exception, None or non-empty list, tuple arity, non-blank in-text substrings in text order, datetime values, language element among the requested.",
             "Valid language codes only; frozen clock.", "DESIGN.md §4 C17"),
     "C20": ("exploration", "harness-owned thread schedules (sys.settrace preemption of A at its k-th library line, B to completion) enumerated over distinct lines and drawn by Hypothesis; oracle = results of the same calls alone",
@@ -23,7 +23,7 @@ CHECKS = {
             "Generated phrases (1-3 units, counts 0..5000, decimals, fixed words, clock times, RETURN_TIME_AS_PERIOD) over boundary-biased bases given as RELATIVE_BASE or frozen clock, compared with integer month arithmetic + exact timedelta written in the harness (no relativedelta); implicit-now stage against pytz for TIMEZONE/TO_TIMEZONE pairs.",
             "Both application orders accepted when month clamping makes them differ; comma decimals only in single-unit phrases; TZ=UTC.", "DESIGN.md §4 C04"),
     "C06": ("exploration", "exhaustive table walk + Hypothesis sampling, differential against the English canonical expression",
-            "Every fixed relative phrase and every counted pattern (instantiated with the listed counts and decimals) of all 504 locale codes, NORMALIZE on/off, is parsed with its language selected and compared (date and period) with the English parse of the canonical key under the same frozen reference time. 29 (language, key, phrase) failures of the pinned tree are listed findings.",
+            "Every fixed relative phrase and every counted pattern (instantiated with the listed counts and decimals) of all 504 locale codes, NORMALIZE on/off, is parsed with its language selected and compared (date and period) with the English parse of the canonical key under the same frozen reference time. 30 (language, key, phrase) failures of the pinned tree are listed findings.",
             "The key in the data is the canon; English path correctness is C04's subject.", "DESIGN.md §4 C06"),
     "C07": ("exploration", "property-based testing (Hypothesis) + walk over all locales: constructed reading of rendered numeric dates",
             "Dates rendered in all 6 orders x 4 separators x year classes x optional time, parsed with explicit DATE_ORDER (must be read as written) and with each locale's own order (harness-side overlay as oracle), PREFER_LOCALE_DATE_ORDER on/off; thorough adds an exhaustive 6x4x40 years x all (m,d) grid.",
@@ -38,7 +38,7 @@ CHECKS = {
             "All supported offsets x 8-12 spellings and all ~390 abbreviations (upper/lower) x bodies x positions x {en, autodetect}: aware result with exactly the listed offset and the written wall clock, surviving pickle/copy/deepcopy; naive control group. 4 non-ASCII abbreviations are listed findings.",
             "Expected offsets read from dateparser/timezones.py source table; conflicting names (LMT) excluded.", "DESIGN.md §4 C11"),
     "C05": ("exploration", "exhaustive table walk + property-based sampling (Hypothesis): every listed month/weekday name parsed and compared with the meaning the data declares",
-            "Complete walk over all 504 locale codes x NORMALIZE on/off x SKIP_TOKENS default/[] x every single-meaning month/weekday spelling (exhaustive in the thorough tier, all languages + 20% of regional locales in quick), plus Hypothesis sampling of days/years/reference dates. 36 (language, name) pairs that fail on the pinned tree are listed as known findings; any other failing name is a violation.",
+            "Complete walk over all 504 locale codes x NORMALIZE on/off x SKIP_TOKENS default/[] x every single-meaning month/weekday spelling (exhaustive in the thorough tier, all languages + 20% of regional locales in quick), plus Hypothesis sampling of days/years/reference dates. 51 (language, name) pairs that fail on the pinned tree (shadowed or normalisation-colliding names) are listed as known findings; any other failing name is a violation.",
             "The data module's key is the name's meaning; harness-side overlay of locale_specific; frozen clock via module-level datetime replacement.", "DESIGN.md §4 C05"),
     "C10": ("exploration", "metamorphic property-based testing (Hypothesis): strict vs loose parse and two distant frozen reference times; thorough walks the whole corpus x all modes",
             "For corpus strings, generated partial dates in every language, custom-format strings and timestamps: strict(s) is None or equals loose(s); strict results (and required parts) are equal at two reference times >=10 years apart; generated strings that lack a demanded part never yield a result.",
@@ -50,7 +50,7 @@ CHECKS = {
             "Four experiments over the corpus: multi == first non-None single in priority/given order with locale membership and DEFAULT_LANGUAGES neutrality; autodetect reproducibility; locales=[loc] == languages+region with loc's own date order; languages + partly invalid region against per-language locales with loader caches reset.",
             "Frozen clock, default settings; fallback to the plain language when lang-REGION is not listed.", "DESIGN.md §4 C13"),
     "C14": ("exploration", "round-trip property-based testing (Hypothesis) over generated strptime formats + exhaustive walk of localised month/weekday names",
-            "Formats built from distinct directives (plus ~40 hand-listed shapes) x datetimes 1900-2100 rendered by harness code and parsed back with date_formats=[fmt] under a frozen clock and preference pairs; every single-meaning month/weekday name of every language in 3+2 formats; raw-match precedence cases. 37 localised-name findings share root causes with C05.",
+            "Formats built from distinct directives (plus ~40 hand-listed shapes) x datetimes 1900-2100 rendered by harness code and parsed back with date_formats=[fmt] under a frozen clock and preference pairs; every single-meaning month/weekday name of every language in 3+2 formats; raw-match precedence cases. 52 localised-name findings share root causes with C05.",
             "Frozen system clock for the missing year/current day; year-less %j and day-without-month formats are not generated (ambiguous).", "DESIGN.md §4 C14"),
     "C15": ("exploration", "exhaustive calendar walk (thorough) / month boundaries + Hypothesis sampling (quick), differential against the conversion libraries, an independent arithmetic Jalali algorithm and day-consecutiveness",
             "Jalali 1200-1500 and Hijri 1343-1500 dates in numeric, named-month, Persian-digit, weekday, spelled-day and time spellings parsed by JalaliCalendar/HijriCalendar and compared with convertdate/hijridate called directly; arithmetic Jalali oracle admitted per year by a self-check; next-day consecutiveness at month ends.",
